@@ -275,6 +275,10 @@ func (in *interp) nodes(ns []Node) ([]*xm, string) {
 			text.WriteString(t)
 		case n.Probe != nil:
 			out = append(out, in.probe(n.Probe))
+		case n.Inc != nil:
+			// the component prints its fixed element; its props are gone when it is done
+			out = append(out, &xm{id: "cmp", text: "c", why: "component call"})
+			in.stat(fmt.Sprintf("include-props=%d", len(n.Inc.Props)))
 		case n.Text != nil:
 			// same reads as a probe's bracket, written as bare text
 			m := in.probe(n.Text)
@@ -340,7 +344,11 @@ func (in *interp) loop(l *Loop) ([]*xm, string) {
 					if v, ok := in.resolve(l.Bind); ok && isScalar(v.K) {
 						// falsy values: whether the attribute is kept is another property's business
 						if t, _ := v.Truthy(); t {
-							m.attrs = map[string]string{"data-x": v.S}
+							as := l.BindAs
+							if as == "" {
+								as = "data-x"
+							}
+							m.attrs = map[string]string{as: v.S}
 						}
 					}
 				}
@@ -439,11 +447,15 @@ func (in *interp) probe(p *Probe) *xm {
 				}
 			}
 			m.kids = append(m.kids, c)
-		case "attr":
-			c := &xm{id: p.ID + "." + itoa(k), text: "a", why: ":data-x=" + r.Path + ", " + in.scopeNote()}
+		case "attr", "nattr":
+			an := "data-x"
+			if r.Pos == "nattr" {
+				an = head(r.Path)
+			}
+			c := &xm{id: p.ID + "." + itoa(k), text: "a", why: ":" + an + "=" + r.Path + ", " + in.scopeNote()}
 			if ok && isScalar(v.K) {
 				if t, _ := v.Truthy(); t {
-					c.attrs = map[string]string{"data-x": v.S}
+					c.attrs = map[string]string{an: v.S}
 				}
 			}
 			m.kids = append(m.kids, c)
